@@ -259,6 +259,14 @@ impl Prop for RandomBytes {
     }
 }
 
+/// Fuzz artifacts and corpus files become `random` cases.
+pub fn classify_bytes(b: &[u8]) -> Option<(String, String, &'static str, serde_json::Value)> {
+    match judge(b) {
+        Ok(_) => None,
+        Err((s, d)) => Some((s, d, "random", serde_json::json!({ "bytes": hex(b) }))),
+    }
+}
+
 pub fn def() -> PropertyDef {
     PropertyDef {
         id: "C03",
@@ -268,7 +276,13 @@ pub fn def() -> PropertyDef {
             "R-WIRE policy: trailing bytes ignored; a pointer must target an offset before the start of the name (sub)sequence being read; Z bits ignored",
             "release profile, repo toolchain; stack bound checked on a 2 MiB thread with a shallow call stack",
         ],
-        parts: vec![Box::new(Constructions), Box::new(Mutants), Box::new(RandomBytes)],
+        parts: vec![
+            Box::new(Constructions),
+            Box::new(crate::fuzzrun::CorpusPart { name: "corpus", target: "wire_diff", classify: classify_bytes }),
+            Box::new(crate::fuzzrun::FuzzPart { name: "fuzz-wire_diff", target: "wire_diff", runs_per_job: 1_000_000, jobs: 8, max_len: 65_535, classify: classify_bytes }),
+            Box::new(Mutants),
+            Box::new(RandomBytes),
+        ],
         budget_s: |t| t.pick(900, 10_800),
         needs_repo_bins: false,
     }
